@@ -221,7 +221,11 @@ class PIT(DNAS):
                 if isinstance(layer, PITModule) and hasattr(layer, 'following_bn_args'):
                     layer.following_bn_args = None  # type: ignore
 
+        # tracing forces `eval()` on the inner model: restore its training status afterwards
+        modes = [(m, m.training) for m in self.seed.modules()]
         mod, _, _ = convert(self.seed, self._input_example, 'export')
+        for m, mode in modes:
+            m.training = mode
 
         return mod
 
